@@ -68,6 +68,10 @@ CHECKS = {
    technique="runtime monitor: big.Int representability oracle for Compose (exact-or-error), exact inverse check for Decompose with nil/short/roomy buffers",
    text="Compose is observed on coefficients of 0..400 bytes (thresholds 16/17 and 32/33, leading zero bytes), foldable c*10^k and unfoldable c*10^k+1 shapes, exponents outside -6176..6111 compensated by the coefficient, int32 extremes, all forms; the oracle decides representability in big.Int and requires the exact value or an error, never rounding, input untouched. Decompose is observed on every value class with three buffer regimes and must be inverted exactly by Compose. Exploration.",
    ref="DESIGN.md §5 C14"),
+ "C15": dict(
+   technique="runtime monitor: class/sign oracle evaluated with Go's float64 math on dyadic class representatives, bit-identity monitor for NaN propagation, payload-text oracle from an independent op/class name table, four-way classification check against the harness decoder",
+   text="Every arithmetic (x 6 modes and default), QuoRem, Pow, elementary, rounding and sign operation is observed on the complete cross product of 15 operand classes with random members per cell (non-canonical Inf/NaN/zero encodings, cohorts, huge odd/even integers); results are judged for class and sign whenever an operand is NaN/Inf/zero or the operation is invalid, NaN operands must be propagated bit for bit, invalid-operation NaNs must carry the documented Payload text, finite operands never give NaN otherwise, and IsNaN/IsInf/IsZero/Signbit are checked on arbitrary bit patterns. The run is inconclusive unless every class cell was hit. Exploration.",
+   ref="DESIGN.md §5 C15"),
 }
 
 PENDING = "monitor for this property is not built yet in this revision (work in progress; see DESIGN.md §5 for the planned monitor)"
